@@ -6,6 +6,7 @@ import (
 	"strconv"
 	"strings"
 	"testing"
+	"time"
 
 	"github.com/inbucket/inbucket/v3/pkg/storage"
 	"pgregory.net/rapid"
@@ -451,13 +452,19 @@ type DCase struct {
 	Backend string   `json:"backend"`
 	N       int      `json:"n"`    // messages in the mailbox
 	Cmds    []string `json:"cmds"` // valid TRANSACTION commands after login
+	// Idle: instead of dropping the connection the client falls silent and the server ends the
+	// session at its idle timeout (configured to 250 ms); tried after the whole session and
+	// after each prefix ending in DELE.
+	Idle bool `json:"idle,omitempty"`
 }
 
 var propDrop = hx.Prop[DCase]{
 	ID: pid, Name: "dropat",
 	Rule: "a generated valid session (login, then 1-12 valid DELE/STAT/LIST/UIDL/RETR/TOP/RSET/NOOP commands on a mailbox of 2-6 messages) is " +
 		"replayed and the connection dropped after k commands for EVERY k in 0..n (never sending QUIT): the mailbox must be unchanged each " +
-		"time; every (session, k) is one evaluation; non-trivial = at least one message was marked deleted before the drop",
+		"time; in one case of five the client instead falls silent (after the whole session and after each prefix ending in DELE) until the " +
+		"server ends the session at its idle timeout of 250 ms; every (session, k) is one evaluation; non-trivial = at least one message was " +
+		"marked deleted before the connection ended",
 	Quick: 15, Thorough: 150,
 	Gen: func(t *rapid.T) DCase {
 		c := DCase{Backend: rapid.SampledFrom([]string{"mem", "file"}).Draw(t, "backend"), N: rapid.IntRange(2, 6).Draw(t, "n")}
@@ -469,12 +476,17 @@ var propDrop = hx.Prop[DCase]{
 				c.Cmds[i] = fmt.Sprintf(c.Cmds[i], k)
 			}
 		}
+		c.Idle = rapid.IntRange(0, 4).Draw(t, "idle") == 0
 		return c
 	},
 	Run: func(c DCase) *hx.Outcome {
 		o := &hx.Outcome{}
 		cfg := hx.DefaultCfg()
 		cfg.Backend, cfg.NoHTTP = c.Backend, true
+		if c.Idle {
+			cfg.POP3Timeout = "250ms"
+			o.Class("ended by the server's idle timeout")
+		}
 		w, err := hx.NewWorld(cfg)
 		if err != nil {
 			o.Failf(pid+":harness", "world: %v", err)
@@ -493,6 +505,9 @@ var propDrop = hx.Prop[DCase]{
 		all := append([]string{"USER box", "PASS x"}, c.Cmds...)
 		nt := 0
 		for k := 0; k <= len(all); k++ {
+			if c.Idle && k != len(all) && !(k > 2 && strings.HasPrefix(all[k-1], "DELE")) {
+				continue
+			}
 			pc, _, err := w.DialPOP3()
 			if err != nil {
 				o.Failf(pid+":harness", "dial: %v", err)
@@ -515,6 +530,22 @@ var propDrop = hx.Prop[DCase]{
 					markedAny = false
 				}
 			}
+			how := "connection dropped"
+			if c.Idle {
+				// silence: the server must end the session by itself
+				how = "client idle until the server's timeout ended the session"
+				deadline := time.Now().Add(5 * time.Second)
+				for {
+					if _, err := pc.ReadLine(5 * time.Second); err != nil {
+						break
+					}
+					if time.Now().After(deadline) {
+						o.Failf(pid+":idle-timeout-missing", "after %d commands the client stayed silent for 5 s (idle timeout 250 ms) and the server still holds the session", k)
+						_ = pc.Close()
+						return o
+					}
+				}
+			}
 			if err := pc.Close(); err != nil {
 				o.Failf(pid+":session-wedged", "drop after %d: %v", k, err)
 				return o
@@ -528,7 +559,7 @@ var propDrop = hx.Prop[DCase]{
 				gi = append(gi, m.ID())
 			}
 			if strings.Join(gi, ",") != strings.Join(want, ",") {
-				o.Failf(pid+":drop-commits", "connection dropped after %d commands %q (no QUIT): mailbox now %v, was %v", k, all[:k], gi, want)
+				o.Failf(pid+":drop-commits", "%s after %d commands %q (no QUIT): mailbox now %v, was %v", how, k, all[:k], gi, want)
 				return o
 			}
 		}
